@@ -1,6 +1,7 @@
 //! The list of harnesses (one `#[kani::proof]` each + native registry).
 use crate::*;
 use crate::state::{PeerShape, Shape};
+use crate::rawnode::{Input, RnShape};
 use raft::StateRole;
 
 const F21: Shape = Shape::follower3(2, 1);
@@ -12,6 +13,13 @@ const S3L: c12::CShape = c12::CShape { inc: &[1, 2, 3], out: &[], lrn: &[4], nxt
 const S1: c12::CShape = c12::CShape { inc: &[1], out: &[], lrn: &[], nxt: &[], auto: false };
 const J1: c12::CShape = c12::CShape { inc: &[1, 2], out: &[1, 2, 3], lrn: &[4], nxt: &[3], auto: true };
 const J2: c12::CShape = c12::CShape { inc: &[1, 2, 4], out: &[1, 2, 3], lrn: &[], nxt: &[], auto: false };
+// RawNode scenarios
+const RF: Shape = Shape::follower3(3, 0).with_terms(&[1, 2, 3]).with_term(5).with_commit(1).with_applied(1).with_persisted(3).with_flags(false, false, false);
+const RF_ASYNC: Shape = Shape::follower3(3, 0).with_terms(&[1, 1, 1]).with_term(5).with_commit(1).with_applied(1).with_persisted(1).with_flags(false, false, false);
+const RL: Shape = L21S.with_commit(1).with_applied(1).with_persisted(2).with_peers(&[PeerShape::probe(2, 2).matched(1).paused(), PeerShape::probe(3, 2).matched(0).paused()]);
+const RL_ACTIVE: Shape = L21S.with_commit(1).with_applied(1).with_persisted(2).with_peers(&[PeerShape::replicate(2, 4, 0).matched(3), PeerShape::probe(3, 2).matched(0).paused()]);
+const RS1L: Shape = Shape::follower3(3, 0).with_conf(&[1], &[], &[2], &[], false).with_terms(&[1, 2, 3]).with_term(5).with_commit(3).with_applied(3).with_persisted(3).with_flags(false, false, false);
+const RS1: Shape = Shape::follower3(3, 0).with_conf(&[1], &[], &[], &[], false).with_terms(&[1, 2, 3]).with_term(5).with_commit(3).with_applied(3).with_persisted(3).with_flags(false, false, false);
 const CAND3: Shape = Shape::follower3(3, 0).with_role(StateRole::Candidate).with_term(5).with_terms(&[1, 2, 3]).with_commit(1).with_votes(&[(1, true)]);
 const PRE3: Shape = Shape::follower3(3, 0).with_role(StateRole::PreCandidate).with_term(5).with_terms(&[1, 2, 3]).with_commit(1).with_votes(&[(1, true)]);
 const CAND5: Shape = CAND3.with_conf(&[1, 2, 3, 4, 5], &[], &[], &[], false);
@@ -402,6 +410,52 @@ harnesses! {
     { persist_wrong_term, "C04,C06", quick, unwind = 8,
       "leader on_persist_entries(2, term 1): term does not match storage -> ignored",
       |s| c04::persist_step(s, &L21_PERSIST, 2, 1) }
+    // ---------------- RawNode: Ready / advance / persist contract (C06 / C07 / C20 / C15) ----------------
+    { rn_vote_higher, "C06,C07,C02,C20", quick, unwind = 8,
+      "RawNode follower (term 5, log [1,2,3] persisted, commit=applied=1): MsgRequestVote at term 7 with an up-to-date log -> ready/persist/advance: grant only in persisted_messages, hs carries (7, vote), must_sync, committed entries 2..=3? no: commit 1 -> none; every Ready clause checked",
+      |s| rawnode::cycle(s, &RnShape::of(RF), &Input::vote(7), &Input::NONE) }
+    { rn_vote_same_term, "C06,C07,C02", quick, unwind = 8,
+      "RawNode follower whose term 5 is already persisted (vote / leader symbolic): MsgRequestVote at term 5 -> if granted the Ready differs from the persisted hard state only in the vote and must still be must_sync",
+      |s| rawnode::cycle(s, &RnShape::of(RF), &Input::vote(5), &Input::NONE) }
+    { rn_append_extend, "C07,C06,C01,C05", quick, unwind = 8,
+      "RawNode follower: MsgAppend extending the log by entry 4 with commit 4 -> Ready hands entries [4] to persist and committed entries 2..=3 (persisted ones only), advance hands 4 in the LightReady: exact, ordered, no gap/duplicate",
+      |s| rawnode::cycle(s, &RnShape::of(RF), &Input::append(5, 3, 3, &[5], 4), &Input::NONE) }
+    { rn_heartbeat_commit, "C07,C01", quick, unwind = 8,
+      "RawNode follower: heartbeat raising commit to 3 -> committed entries 2..=3 handed once, hs changes in commit only (must_sync false)",
+      |s| rawnode::cycle(s, &RnShape::of(RF), &Input::heartbeat(5, 3), &Input::NONE) }
+    { rn_async_overwrite, "C07,C04,C14,C06", quick, unwind = 8,
+      "RawNode follower with an in-flight Ready (entries 2..3 of term 1 written, fsync notice outstanding): a new leader's append overwrites 2..3 (term 2) and commits 3, then the stale notice arrives -> persisted must not move onto the new, unwritten entries; nothing unpersisted is handed out",
+      |s| rawnode::async_overwrite(s, &RnShape::of(RF_ASYNC).records(&[(1, Some((3, 1)), None)], 1), &Input::append(5, 1, 1, &[2, 2], 3), 1) }
+    { rn_leader_propose, "C06,C07,C13", quick, unwind = 8,
+      "RawNode leader (term persisted): propose -> Ready releases the appends immediately (leader), carrying a durable term; entries handed once; advance persists and may commit",
+      |s| rawnode::cycle(s, &RnShape::of(RL_ACTIVE), &Input::propose(2), &Input::NONE) }
+    { rn_stepdown_grant, "C06,C04,C01,C02", quick, unwind = 8,
+      "RawNode that was leader at its previous Ready receives a higher-term vote request, steps down and grants in the same round -> the grant must wait for persistence (persisted_messages), not go out with the leader's immediate messages",
+      |s| rawnode::cycle(s, &RnShape::of(RL), &Input::vote(7), &Input::NONE) }
+    { rn_stepdown_append, "C06,C04,C07", quick, unwind = 8,
+      "RawNode that was leader at its previous Ready is deposed by a higher-term MsgAppend carrying an entry -> its MsgAppendResponse is a persisted message",
+      |s| rawnode::cycle(s, &RnShape::of(RL), &Input::append(7, 3, 2, &[7], 1), &Input::NONE) }
+    { rn_singleton_campaign, "C06,C20,C02", quick, unwind = 8,
+      "RawNode single voter without learners campaigns: wins in the same step; Ready contract",
+      |s| rawnode::cycle(s, &RnShape::of(RS1), &Input::HUP, &Input::NONE) }
+    { rn_singleton_learner_campaign, "C06", quick, unwind = 8,
+      "RawNode single voter WITH a learner campaigns: it wins inside the same step and appends to the learner; those messages must not be released before the new term and self-vote are persisted",
+      |s| rawnode::cycle(s, &RnShape::of(RS1L), &Input::HUP, &Input::NONE) }
+    { rn_snapshot, "C15,C07,C06", quick, unwind = 8,
+      "RawNode follower: MsgSnapshot (index 5 > last 3) -> Ready carries the snapshot, no committed entries, must_sync; after advance applied = commit_since = 5",
+      |s| rawnode::cycle(s, &RnShape::of(RF), &Input::snapshot(5, 5, 4), &Input::NONE) }
+    { rn_snapshot_then_hup, "C20,C15,C09", quick, unwind = 8,
+      "RawNode follower steps MsgSnapshot and is asked to campaign before the Ready round: no panic, Ready contract holds",
+      |s| rawnode::cycle(s, &RnShape::of(RF), &Input::snapshot(5, 5, 4), &Input::HUP) }
+    { dbg_deque, "DBG", quick, unwind = 8, "dbg", |s| rawnode::dbg_deque(s) }
+    { dbg_deque2, "DBG", quick, unwind = 8, "dbg", |s| rawnode::dbg_deque2(s) }
+    { dbg_persist2, "DBG", quick, unwind = 8, "dbg", |s| rawnode::dbg_persist2(s, &RnShape::of(RL)) }
+    { dbg_app, "DBG", quick, unwind = 8, "dbg", |s| rawnode::dbg_app(s, &RnShape::of(RF)) }
+    { dbg_app2, "DBG", quick, unwind = 8, "dbg", |s| rawnode::dbg_app2(s, &RnShape::of(RF)) }
+    { dbg_persist, "DBG", quick, unwind = 8, "dbg", |s| rawnode::dbg_persist(s, &RnShape::of(RL)) }
+    { rn_step_rejects, "C20", quick, unwind = 8,
+      "RawNode::step refuses the five local message types and responses from a non-member, state untouched",
+      |s| rawnode::step_rejects(s, &RnShape::of(RF)) }
     // ---------------- C09 campaign gating ----------------
     { hup_f30_pending, "C09", quick, unwind = 8,
       "Raft::step(MsgHup) on a follower (3 voters, log of 3, applied=1, commit=3, entry 3 is a ConfChangeV2): must not campaign; symbolic term/vote/leader/timers/flags",
